@@ -4,7 +4,10 @@
 // real Real64/Real32 types and compared register by register against an independent jet
 // reference model with running rounding bounds. Programs are enumerated in SSA form and in
 // every destination-aliases-operand (in-place) form; registers are fresh or reused; variables
-// are fresh objects or re-activated former result registers.
+// are fresh objects or re-activated former result registers; instructions go through the
+// Scalar interface or through the upper-case concrete entry points; every object the program
+// only reads must come out unchanged, and the objects alive at the end are overwritten in turn
+// to expose state shared between two scalars.
 package main
 
 import (
@@ -14,6 +17,7 @@ import (
 	"os"
 	"runtime/debug"
 	"runtime/pprof"
+	"strings"
 	"time"
 
 	"verif/mc/vf"
@@ -29,6 +33,9 @@ type engine struct {
 	stop   bool
 	// the object-history reuse modes rotate through polHists[3:nPolHist]
 	nPolHist int
+	// composed programs: the concrete entry points at every concStride-th point, the overwrite round
+	// at every owStride-th point (both rotating with the program; depth-1 scalar programs: every point)
+	concStride, owStride int
 }
 
 func (e *engine) expired() bool {
@@ -70,6 +77,12 @@ type evalOpts struct {
 	// one of the activation routes (rotating through route x stale order with point and program);
 	react        int
 	helpersStale bool // Matrix.Hessian / Jacobian also on an argument carrying stale derivatives
+	// concrete > 0: at every concrete-th point (rotating with the program) the program, in SSA and in
+	// every in-place form, fresh and reused registers, is also run through the concrete entry points
+	concrete int
+	// overwrite > 0: at every overwrite-th point (rotating with the program) the runs on fresh
+	// objects (SSA and in-place forms, both entry modes) end with the overwrite round
+	overwrite int
 }
 
 // aliasLabel: key suffix of a failure that appears only in the in-place form of a program
@@ -83,6 +96,14 @@ func aliasLabel(p *Program, reg int) string {
 }
 
 func suffixFails(cs *Case, fails []failure) {
+	if cs.Entry != "" {
+		// only reached when the same case passed through the interface methods
+		defer func() {
+			for i := range fails {
+				fails[i].key += "|concrete-entry-points"
+			}
+		}()
+	}
 	al := hasAlias(&cs.Prog)
 	if cs.Stale > 0 || cs.Act != "" || cs.Hist != nil {
 		// only reached when the same case passed on fresh variable objects activated by Variables():
@@ -117,7 +138,9 @@ func suffixFails(cs *Case, fails []failure) {
 		return
 	}
 	for i := range fails {
-		if al {
+		if al && (strings.HasPrefix(fails[i].key, "operand-modified|") || strings.HasPrefix(fails[i].key, "shared-state|")) {
+			fails[i].key += "|in-place"
+		} else if al {
 			fails[i].key += aliasLabel(&cs.Prog, fails[i].reg)
 		}
 		if cs.Pollute > 0 {
@@ -142,12 +165,33 @@ func (e *engine) evalCase(cs *Case, jets []Jet, m *Model, rank int64) (cmpStats,
 		}
 	}
 	p := &cs.Prog
+	if cs.Entry != "" && !concreteApplicable(p) {
+		// what is left of the program has no instruction with a concrete twin: same run as through the interface
+		e.c.Count("concrete_entry_skipped_nothing_applicable_after_cut", 1)
+		return cmpStats{}, false
+	}
 	if cs.Pollute >= 3 {
 		cs.RegHist = polHists[cs.Pollute].String()
 	}
 	e.c.Guard(finalName(p), rank, nil)
 	out := rt.run(p, cs, nil)
 	fails, st := compareRegs(m, p, cs, &out, jets)
+	if len(fails) == 0 && out.panicAt < 0 {
+		// the objects the program only reads: input variables and constant-valued magic scalars
+		fails = rt.checkLive(p, cs, &out)
+		e.c.Count("runs_with_operand_objects_reverified", 1)
+		if len(fails) == 0 && cs.Overwrite {
+			fails = rt.overwriteRound(p, cs, &out)
+			e.c.Count("overwrite_rounds", 1)
+		}
+	}
+	if cs.Entry != "" {
+		e.c.Count("concrete_entry_evaluations", 1)
+		e.c.Count("concrete_entry_instructions_executed", int64(out.nConcrete))
+		if out.nConcrete == 0 && out.panicAt < 0 {
+			e.c.HarnessError(fmt.Sprintf("concrete entry mode executed no concrete instruction in [%v]", p))
+		}
+	}
 	e.c.Eval(1)
 	if st.nontrivial {
 		e.c.Nontrivial(1)
@@ -206,8 +250,11 @@ func (e *engine) runProgram(p *Program, pts [][]float64, o evalOpts) {
 	var variantFresh []bool
 	pols := [4]int{0, 1, 2, 3}
 	stride := o.alias
+	applicable := concreteApplicable(p)
+	var variantIface [][4]bool // per in-place form and reuse mode: passed through the interface methods
 	if stride > 0 {
 		variants = aliasVariants(p, nil)
+		variantIface = make([][4]bool, len(variants))
 		for i := range variants {
 			variantFresh = append(variantFresh, usesFreshObjects(&variants[i]) || usesConstObjects(&variants[i]))
 		}
@@ -234,56 +281,83 @@ func (e *engine) runProgram(p *Program, pts [][]float64, o evalOpts) {
 			// longer object history (two earlier contents; thorough: also three), rotating with the
 			// point and the program so that every operation meets every history on its lattice
 			pols[3] = 3 + int((int64(pi)+e.idx)%int64(e.nPolHist-3))
+			entries := []string{""}
+			if o.concrete > 0 && applicable && (int64(pi)+e.idx)%int64(o.concrete) == 0 {
+				entries = append(entries, "concrete")
+			}
+			ow := o.overwrite > 0 && (int64(pi)+e.idx)%int64(o.overwrite) == 0
 			for _, order := range e.orders {
-				var passed [4]bool
-				for q, pol := range pols {
-					if pol > 0 && ((!o.pollAllPoints && pi >= 2) || outside) {
-						continue
-					}
-					cs := Case{Prog: *p, Type: typ, Order: order, X: xr, Pollute: pol}
-					rank := depth*1e15 + int64(min(pol, 3))*1e14 + pis*1e10 + e.idx%1e10
-					st, failed := e.evalCase(&cs, jets, m, rank)
-					passed[q] = !failed
-					if pol == 0 && order == 2 {
-						stFresh = st
-					}
-					if pol == 0 && failed {
-						break // the reused-register variants would only repeat this failure
-					}
-					if pol >= 3 {
-						e.c.Count("object_history_evaluations", 1)
-					}
+				var passedIface [4]bool
+				for i := range variantIface {
+					variantIface[i] = [4]bool{}
 				}
-				// re-activated variables: same reference jets again. One (route, stale order) combination
-				// per point, rotating with the point and the program, so that every operation meets every
-				// combination on its lattice
-				if outside {
-					continue
-				}
-				if rs := reactStride; rs > 0 && passed[0] && pi%rs == 0 {
-					k := (int64(pi/rs) + e.idx) % int64(2*len(actRoutes))
-					cs := Case{Prog: *p, Type: typ, Order: order, X: xr, Stale: 1 + int(k%2), Act: actRoutes[k/2]}
-					rank := depth*1e15 + 7e13 + pis*1e10 + e.idx%1e10
-					e.evalCase(&cs, jets, m, rank)
-					e.c.Count("reactivated_variable_evaluations", 1)
-				}
-				// in-place forms: same reference jets (the model does not care about object identity);
-				// run only where the SSA form passed, so that a failure is due to the aliasing
-				if len(variants) == 0 || !passed[0] || pi%stride != 0 {
-					continue
-				}
-				for vi := range variants {
+				for ei, entry := range entries {
+					// the concrete entry points only where the same case passed through the interface methods,
+					// so that a failure is due to the entry points
+					erank := int64(ei) * 1e13
+					var passed [4]bool
 					for q, pol := range pols {
-						if pol > 0 && (!passed[q] || !variantFresh[vi]) {
+						if pol > 0 && ((!o.pollAllPoints && pi >= 2) || outside) {
 							continue
 						}
-						cs := Case{Prog: variants[vi], Type: typ, Order: order, X: xr, Pollute: pol}
-						rank := depth*1e15 + 5e13 + int64(min(pol, 3))*1e14 + pis*1e10 + e.idx%1e10
-						if _, failed := e.evalCase(&cs, jets, m, rank); failed && pol == 0 {
-							break
+						if ei > 0 && (!passedIface[q] || outside) {
+							continue
+						}
+						cs := Case{Prog: *p, Type: typ, Order: order, X: xr, Pollute: pol, Entry: entry, Overwrite: ow && pol == 0 && !outside}
+						rank := depth*1e15 + int64(min(pol, 3))*1e14 + erank + pis*1e10 + e.idx%1e10
+						st, failed := e.evalCase(&cs, jets, m, rank)
+						passed[q] = !failed
+						if pol == 0 && order == 2 && ei == 0 {
+							stFresh = st
+						}
+						if pol == 0 && failed {
+							break // the reused-register variants would only repeat this failure
 						}
 						if pol >= 3 {
 							e.c.Count("object_history_evaluations", 1)
+						}
+					}
+					if ei == 0 {
+						passedIface = passed
+					}
+					// re-activated variables: same reference jets again. One (route, stale order) combination
+					// per point, rotating with the point and the program, so that every operation meets every
+					// combination on its lattice
+					if outside {
+						continue
+					}
+					if rs := reactStride; ei == 0 && rs > 0 && passed[0] && pi%rs == 0 {
+						k := (int64(pi/rs) + e.idx) % int64(2*len(actRoutes))
+						cs := Case{Prog: *p, Type: typ, Order: order, X: xr, Stale: 1 + int(k%2), Act: actRoutes[k/2]}
+						rank := depth*1e15 + 7e13 + pis*1e10 + e.idx%1e10
+						e.evalCase(&cs, jets, m, rank)
+						e.c.Count("reactivated_variable_evaluations", 1)
+					}
+					// in-place forms: same reference jets (the model does not care about object identity);
+					// run only where the SSA form passed, so that a failure is due to the aliasing
+					if len(variants) == 0 || !passed[0] || pi%stride != 0 {
+						continue
+					}
+					for vi := range variants {
+						for q, pol := range pols {
+							if pol > 0 && (!passed[q] || !variantFresh[vi]) {
+								continue
+							}
+							if ei > 0 && !variantIface[vi][q] {
+								continue
+							}
+							cs := Case{Prog: variants[vi], Type: typ, Order: order, X: xr, Pollute: pol, Entry: entry, Overwrite: ow && pol == 0}
+							rank := depth*1e15 + 5e13 + int64(min(pol, 3))*1e14 + erank + pis*1e10 + e.idx%1e10
+							_, failed := e.evalCase(&cs, jets, m, rank)
+							if ei == 0 {
+								variantIface[vi][q] = !failed
+							}
+							if failed && pol == 0 {
+								break
+							}
+							if pol >= 3 {
+								e.c.Count("object_history_evaluations", 1)
+							}
 						}
 					}
 				}
@@ -442,7 +516,7 @@ const filler = 1.25 // value of variables a depth-1 program does not read
 
 // depth-1 scalar programs on their boundary lattices
 func (e *engine) phaseDepth1Scalar() {
-	opt := evalOpts{pollAllPoints: true, fdAllPoints: true, helpers: true, alias: 1, react: 1, helpersStale: true}
+	opt := evalOpts{pollAllPoints: true, fdAllPoints: true, helpers: true, alias: 1, react: 1, helpersStale: true, concrete: 1, overwrite: 1}
 	for _, op := range opsOfKind(Unary, false) {
 		o := ops[op]
 		for _, typ := range e.types {
@@ -475,7 +549,7 @@ func (e *engine) phaseDepth1Scalar() {
 					in := mkInstr(op)
 					in.A = Operand{K: kind, V: v}
 					p := Program{N: 1, Ins: []Instr{in}}
-					e.runProgram(&p, [][]float64{{filler}}, evalOpts{pollAllPoints: true, fdNone: true, alias: 1})
+					e.runProgram(&p, [][]float64{{filler}}, evalOpts{pollAllPoints: true, fdNone: true, alias: 1, concrete: 1, overwrite: 1})
 				}
 			}
 			e.types = save
@@ -539,7 +613,7 @@ func (e *engine) phaseDepth1Scalar() {
 							x[0] = pr.b
 						}
 						p := Program{N: 1, Ins: []Instr{in}}
-						e.runProgram(&p, [][]float64{x}, evalOpts{pollAllPoints: true, fdAllPoints: true, alias: 1, react: 1})
+						e.runProgram(&p, [][]float64{x}, evalOpts{pollAllPoints: true, fdAllPoints: true, alias: 1, react: 1, concrete: 1, overwrite: 1})
 					}
 				}
 			}
@@ -564,7 +638,7 @@ func (e *engine) phaseDepth1Reduce(thorough bool) {
 		pts := gridPoints(grid, n)
 		reduceInstrs(n, 0, maxLen, -1, thorough, true, func(in Instr) {
 			p := Program{N: n, Ins: []Instr{in}}
-			e.runProgram(&p, pts, evalOpts{pollAllPoints: n <= 2, helpers: true, react: 1, helpersStale: true})
+			e.runProgram(&p, pts, evalOpts{pollAllPoints: n <= 2, helpers: true, react: 1, helpersStale: true, overwrite: e.owStride})
 		})
 	}
 }
@@ -729,9 +803,13 @@ func (e *engine) phaseDepth2Scalar(thorough bool) {
 		// in-place forms: every grid point for one and two variables, every 5th point for three
 		// variables (a stride coprime to the grid size, so that every coordinate runs through all its
 		// values); re-activated variables: at the first grid point
-		opt := evalOpts{helpers: true, alias: 1, react: firstPointOnly}
+		opt := evalOpts{helpers: true, alias: 1, react: firstPointOnly, concrete: e.concStride, overwrite: e.owStride}
+		if n == 1 {
+			opt.concrete, opt.overwrite = 1, 1 // seven points only
+		}
 		if n == 3 {
 			opt.alias = 5
+			opt.concrete++
 		}
 		scalarInstrs(n, 0, all, -1, func(i1 Instr) {
 			scalarInstrs(n, 1, all, 0, func(i2 Instr) {
@@ -765,7 +843,13 @@ func (e *engine) phaseDepth2Reduce(thorough bool) {
 		}
 		// in-place forms of the scalar instruction (x.Exp(x) feeding a reduction, r.Vmean(v); r.Exp(r))
 		// at every 2nd grid point; re-activated variables at the first grid point
-		optR := evalOpts{alias: 2, react: firstPointOnly}
+		optR := evalOpts{alias: 2, react: firstPointOnly, concrete: e.concStride, overwrite: e.owStride}
+		if n == 1 {
+			optR.concrete, optR.overwrite = 1, 1
+		}
+		if n == 3 {
+			optR.concrete++
+		}
 		// scalar op feeding a reduction
 		scalarInstrs(n, 0, all, -1, func(i1 Instr) {
 			if n == 3 {
@@ -825,9 +909,9 @@ func (e *engine) phaseDepth3() {
 		}
 		p := Program{N: n, Ins: []Instr{i1, i2, i3}}
 		if full {
-			e.runProgram(&p, pts, evalOpts{fdNone: e.idx%16 != 0})
+			e.runProgram(&p, pts, evalOpts{fdNone: e.idx%16 != 0, concrete: e.concStride, overwrite: e.owStride})
 		} else {
-			e.runProgram(&p, ptsSmall, evalOpts{fdNone: e.idx%16 != 0})
+			e.runProgram(&p, ptsSmall, evalOpts{fdNone: e.idx%16 != 0, concrete: e.concStride, overwrite: e.owStride})
 		}
 	}
 	// (1) unary . binary . unary chains, full alphabet
@@ -885,10 +969,11 @@ func runAll(c *vf.Ctx) {
 			defer pprof.StopCPUProfile()
 		}
 	}
-	e := &engine{c: c, types: []string{"Real64", "Real32"}, orders: []int{1, 2}, nPolHist: polHistQuick}
+	e := &engine{c: c, types: []string{"Real64", "Real32"}, orders: []int{1, 2}, nPolHist: polHistQuick, concStride: 3, owStride: 4}
 	th := c.Thorough()
 	if th {
 		e.nPolHist = len(polHists)
+		e.concStride, e.owStride = 2, 3
 	}
 	mark := func(name string, t0 time.Time, i0 int64) {
 		if c.Shard == 0 {
@@ -945,7 +1030,7 @@ func replay(c *vf.Ctx, raw json.RawMessage) {
 	// re-activated variables; the first rung that fails names the cause
 	base := cs
 	base.Prog = stripAlias(&cs.Prog)
-	base.Pollute, base.Stale, base.Act, base.Hist = 0, 0, "", nil
+	base.Pollute, base.Stale, base.Act, base.Hist, base.Entry = 0, 0, "", nil, ""
 	ladder := []Case{base}
 	if cs.Pollute > 0 {
 		r := base
@@ -961,6 +1046,13 @@ func replay(c *vf.Ctx, raw json.RawMessage) {
 			ladder = append(ladder, r)
 		}
 	}
+	if cs.Entry != "" {
+		// the same rungs through the concrete entry points
+		for _, r := range ladder {
+			r.Entry = cs.Entry
+			ladder = append(ladder, r)
+		}
+	}
 	if cs.Stale > 0 || cs.Act != "" || cs.Hist != nil {
 		ladder = append(ladder, cs)
 	}
@@ -970,8 +1062,25 @@ func replay(c *vf.Ctx, raw json.RawMessage) {
 	var cc Case
 	for i := range ladder {
 		cc = ladder[i]
+		// the overwrite round ends the runs on fresh objects
+		cc.Overwrite = cs.Overwrite && cc.Pollute == 0 && cc.Stale == 0 && cc.Act == "" && cc.Hist == nil
+		if cc.Entry != "" && !concreteApplicable(&cc.Prog) {
+			continue
+		}
 		out = rt.run(&cc.Prog, &cc, nil)
 		fails, st = compareRegs(m, &cc.Prog, &cc, &out, jets)
+		if len(fails) == 0 && out.panicAt < 0 {
+			fails = rt.checkLive(&cc.Prog, &cc, &out)
+			if len(fails) == 0 && cc.Overwrite {
+				fails = rt.overwriteRound(&cc.Prog, &cc, &out)
+				if len(fails) > 0 {
+					// the objects have been overwritten: show the registers of a run without that round
+					c2 := cc
+					c2.Overwrite = false
+					out = rt.run(&c2.Prog, &c2, nil)
+				}
+			}
+		}
 		if len(fails) > 0 {
 			break
 		}
@@ -989,7 +1098,7 @@ func replay(c *vf.Ctx, raw json.RawMessage) {
 	} else {
 		suffixFails(&cc, fails)
 	}
-	fmt.Printf("replay: [%v] type=%s order=%d x=%v pollute=%d -> status=%q\n", cc.Prog, cc.Type, cc.Order, cc.X, cc.Pollute, st.status)
+	fmt.Printf("replay: [%v] type=%s order=%d x=%v pollute=%d entry=%q overwrite-round=%v -> status=%q\n", cc.Prog, cc.Type, cc.Order, cc.X, cc.Pollute, cc.Entry, cc.Overwrite, st.status)
 	for k := range out.regs {
 		over := ""
 		for l := k + 1; l < len(cc.Prog.Ins); l++ {
@@ -1027,7 +1136,9 @@ func main() {
 			"Every scalar instruction also in its destination-aliases-operand forms (dst = operand a, dst = operand b, both slots and the destination one object: t.Exp(t), t.Mul(t,x), t.Sub(x,t), t.Mul(t,t); on variables, result registers and constant-valued magic scalars; all combinations over the instructions of a program in which no overwritten name is read again; depth 1: every lattice point, depth 2: every grid point for 1-2 variables, every 5th for 3 variables, every 2nd in programs with a reduction), judged against the same reference jets as the SSA form; reductions whose receiver is an element of their own operand are the C08 family and are not repeated here. " +
 			"Variables that are re-activated after having served as order-1/order-2 result registers (same N), through Variables / SetVariable / DenseVector.Variables / DenseMatrix.Variables (one route x stale-order combination per point, rotating; depth 1: every point, depth 2: first grid point) and as argument of Matrix.Hessian / Matrix.Jacobian. " +
 			"Variables that are re-activated after an earlier differentiation round (order 1 and 2) in which every variable was overwritten in place by a depth-1 program reading the variable itself: ALL such programs of the scalar alphabet (every unary Vi:=op(Vi); every binary Vi:=op(Vi,O), op(O,Vi), op(Vi,Vi) with O = next variable / a register T=Vj*Vj depending on another variable / ConstFloat64 / plain Float64; heavy operations in the thorough tier) x earlier points on a 4-value grid (1..3 variables) x new order x all four activation routes, probed by x_i+const for every i, the mean and <x,x> at the point the variables hold afterwards, and as argument of Matrix.Hessian / Matrix.Jacobian. " +
-			"A case (program, point, order, type, register reuse mode) is distinct by construction; it counts as non-trivial when the final register depends on at least one variable, every intermediate is inside the operation's domain and finite, and the reference tolerance of every compared component is below 1e-6 (Real32: 1e-2) of the jet's scale",
+			"Entry points: every program, in SSA and in every in-place form, on fresh and reused registers, is also run through the upper-case concrete entry points (NEG, ABS, EXP, LOG, LOG1P, SQRT, ADD, SUB, MUL, DIV, POW, MIN, MAX, LOGADD, LOGSUB; an instruction goes through its twin when destination, operands and scratch temporary all have the receiver's concrete type, i.e. are variables, registers or constant-valued magic scalars; programs without such an instruction are not repeated): depth 1 and composed programs over one variable at every point, composed programs over two variables at every 3rd grid point (thorough: every 2nd), over three variables at every 4th (thorough: every 3rd), rotating with the program; run only where the same case passed through the interface methods. " +
+			"Objects: after every run (every form, reuse mode, entry mode) all result registers are read when the whole program has finished, and every input variable and every constant-valued magic scalar that no in-place instruction overwrote must still hold, exactly, its value, d/dx_i = 1 in its own slot (constants: none) and 0 in every other gradient and Hessian slot. Overwrite round ('temporaries reused' after the program): on fresh objects, SSA and in-place forms, both entry modes, depth 1 and composed programs over one variable at every point, other composed programs and depth-1 reductions at every 4th grid point (thorough: every 3rd), rotating with the program, every object alive at the end (result registers, input variables, constant-valued magic scalars, scratch temporaries) is overwritten in turn by X_k := W_k*W_k (Mul / MUL, W_k distinct scalars of the program's order and number of variables); afterwards every X_k must hold bit for bit the product the library computes from W_k into a new object. " +
+			"A case (program, point, order, type, register reuse mode, entry mode) is distinct by construction; it counts as non-trivial when the final register depends on at least one variable, every intermediate is inside the operation's domain and finite, and the reference tolerance of every compared component is below 1e-6 (Real32: 1e-2) of the jet's scale",
 		Assume: []string{
 			"Go's math package (Exp, Log, Erf, Erfc, Gamma, Lgamma, ...) is accurate to a few ulps; it is used as primitive by the reference model",
 			"at a kink between two smooth pieces (Abs at 0, Min/Max tie between different functions) no particular derivative is demanded: every gradient / Hessian slot must be finite and lie between the two one-sided derivatives (tolerance included), slots of variables the register does not depend on must be exactly zero, the Hessian symmetric",
@@ -1036,6 +1147,7 @@ func main() {
 			"the very first register outside the operation's domain: the call is made once per order on fresh objects and not repeated in the reuse / in-place / re-activation modes (nothing is compared there)",
 			"the instructions behind the first register the reference model leaves undefined (outside the domain, NaN, out of range) are not executed; nothing could be compared there",
 			"an in-place instruction leaves the overwritten variable / register dead (programs reading it again have no SSA equivalent and are not enumerated); the result of an overwritten register is compared on a copy (CloneMagicScalar) taken just before",
+			"an operation never writes to an object that is only its operand: input variables and constant-valued magic scalars are compared exactly against what they held before the program; after the overwrite round an object that does not hold exactly the product written into it shares state with another object (or the product depends on the receiver's previous content): both are reported, keyed by the roles of the two objects",
 			"reused registers stem from a computation over the same number of variables (the library documents mixing different numbers of variables as misuse)",
 			"a nonzero reference component outside [1e-100,1e100] (Real32: [1e-30,1e30]) makes a case out of range; it is executed but not compared",
 		},
